@@ -209,6 +209,35 @@ func Shapes() []*Grammar {
 	add("rule-under-opt-partial", Seq(Opt(Ref(1)), Opt(Ref(2)), Lit(";"), Not(Dot())), Seq(Class(R('a', 'b')), Lit("="), Class(R('0', '1'))), Class(R('a', 'b')))
 	add("rule-under-plus-partial-2", Seq(Plus(Ref(1)), a(), c()), Seq(a(), b()))
 	add("rule-under-star-partial", Seq(Star(Ref(1)), Opt(Ref(2)), Lit(";"), Not(Dot())), Seq(Class(R('a', 'b')), Lit("="), Class(R('0', '1'))), Class(R('a', 'b')))
+	// a switch case with several keys whose body starts with each kind of operator (the case's
+	// first element must still test which of the keys it is looking at); another alternative has
+	// the largest first set and becomes the default branch
+	hk := func() *E { return Class(C('#'), R('A', 'C')) }
+	heads := []struct {
+		name string
+		e    *E
+		rule *E
+	}{
+		{"opt", Seq(Opt(Lit("#")), Plus(Class(R('A', 'C')))), nil},
+		{"star", Seq(Star(Lit("#")), Class(R('A', 'C'))), nil},
+		{"plus", Seq(Plus(hk()), Lit("!")), nil},
+		{"and", Seq(And(hk()), Dot(), Lit("!")), nil},
+		{"cap", Seq(Cap(hk()), Act(), Lit("!")), nil},
+		{"nested-choice", Seq(Alt(Lit("#"), Class(R('A', 'C'))), Lit("!")), nil},
+		{"ilit", Seq(ILit("k"), Opt(Lit("!"))), nil},
+		{"opt-rule", Seq(Opt(Ref(1)), Plus(Class(R('A', 'C')))), Lit("#")},
+		{"star-rule", Seq(Star(Ref(1)), Class(R('A', 'C'))), Lit("#")},
+		{"plus-rule", Seq(Plus(Ref(1)), Lit("!")), hk()},
+		{"opt-rule-twice", Seq(Opt(Ref(1)), Plus(Class(R('A', 'C'))), Opt(Ref(1))), Lit("#")},
+	}
+	for _, h := range heads {
+		body := Seq(Alt(h.e, Seq(Lit("("), Lit(")")), Plus(Class(R('a', 'z'))), Class(R('0', '9'))), Not(Dot()))
+		if h.rule != nil {
+			add("multikey-head-"+h.name, body, h.rule)
+		} else {
+			add("multikey-head-"+h.name, body)
+		}
+	}
 	// predicates and state changes
 	add("predicate-guard", Alt(Seq(Pred(0), a()), Seq(Pred(1), b()), c()))
 	add("state-change", Seq(State(), Star(Seq(a(), State())), Not(Dot())))
@@ -219,8 +248,6 @@ func Shapes() []*Grammar {
 	return gs
 }
 
-// Empty2 is an expression that always matches the empty string but is not the bare empty
-// alternative: 'z'? at a place where it is simply optional.
 // Long is the long-input layer: grammars with loops and recursion, each with a concrete filler
 // cycle that keeps the parse going, so that inputs of hundreds to 2^16 runes (all concrete but
 // two arbitrary "hole" runes) reach wide trees, deep nesting, many memo entries and offsets
@@ -258,6 +285,8 @@ func Long() []*Grammar {
 	return gs
 }
 
+// Empty2 is an expression that always matches the empty string but is not the bare empty
+// alternative: 'z'? at a place where it is simply optional.
 func Empty2() *E { return Opt(Lit("z")) }
 
 // ---- multi-rule grammars by outlining ----
